@@ -222,6 +222,95 @@ theorem memo (prog : Call → Body) (f f' : Nat) (s s' : St) (c : Call) (m : Nat
     (h : run prog f s c = some (s', m)) : run prog (f' + 1) s' c = some (s', m) :=
   run_cached prog f' s' c m (run_records prog f s s' c m h)
 
+/-! ## `generator.cache.reset()` -/
+
+/-- everything the memo holds, and everything still to be made, is newer than `N` -/
+def NewerThan (N : Nat) (s : St) : Prop := (∀ c m, lookup c s.done = some m → N ≤ m) ∧ N ≤ s.next
+
+theorem lookup_cons_newer {N : Nat} {done : List (Call × Nat)} {c0 : Call} {m0 : Nat} (h0 : N ≤ m0)
+    (hd : ∀ c m, lookup c done = some m → N ≤ m) : ∀ c m, lookup c ((c0, m0) :: done) = some m → N ≤ m := by
+  intro c m h
+  unfold lookup at h
+  by_cases hc : c0 = c
+  · simp [hc] at h; omega
+  · simp [hc] at h; exact hd c m h
+
+mutual
+theorem run_newer (prog : Call → Body) (N : Nat) : ∀ (f : Nat) (s s' : St) (c : Call) (m : Nat), NewerThan N s →
+    run prog f s c = some (s', m) → NewerThan N s' ∧ N ≤ m
+  | 0, s, s', c, m, _, h => by simp [run] at h
+  | f + 1, s, s', c, m, hs, h => by
+    unfold run at h
+    cases hl : lookup c s.done with
+    | some m0 =>
+      simp [hl] at h; obtain ⟨h1, h2⟩ := h; subst h1; subst h2
+      exact ⟨hs, hs.1 c m0 hl⟩
+    | none =>
+      simp only [hl] at h
+      have hs1 : NewerThan N { s with runs := c :: s.runs } := hs
+      cases hp : prog c with
+      | fresh nested =>
+        simp only [hp] at h
+        cases hr : runAll prog f { s with runs := c :: s.runs } nested with
+        | none => simp [hr] at h
+        | some r =>
+          obtain ⟨s2, ms⟩ := r
+          simp only [hr, Option.some.injEq, Prod.mk.injEq] at h
+          obtain ⟨h1, h2⟩ := h
+          subst h1; subst h2
+          obtain ⟨⟨hd, hn⟩, _⟩ := runAll_newer prog N f _ s2 nested ms hs1 hr
+          exact ⟨⟨lookup_cons_newer hn hd, by simp; omega⟩, hn⟩
+      | forward nested k =>
+        simp only [hp] at h
+        cases hr : runAll prog f { s with runs := c :: s.runs } nested with
+        | none => simp [hr] at h
+        | some r =>
+          obtain ⟨s2, ms⟩ := r
+          simp only [hr] at h
+          cases hk : ms[k]? with
+          | none => simp [hk] at h
+          | some m' =>
+            simp only [hk, Option.some.injEq, Prod.mk.injEq] at h
+            obtain ⟨h1, h2⟩ := h
+            subst h1; subst h2
+            obtain ⟨⟨hd, hn⟩, hms⟩ := runAll_newer prog N f _ s2 nested ms hs1 hr
+            have hm' : N ≤ m' := hms m' (List.mem_of_getElem? hk)
+            exact ⟨⟨lookup_cons_newer hm' hd, hn⟩, hm'⟩
+theorem runAll_newer (prog : Call → Body) (N : Nat) : ∀ (f : Nat) (s s' : St) (cs : List Call) (ms : List Nat), NewerThan N s →
+    runAll prog f s cs = some (s', ms) → NewerThan N s' ∧ ∀ m ∈ ms, N ≤ m
+  | f, s, s', [], ms, hs, h => by
+    simp [runAll] at h; obtain ⟨h1, h2⟩ := h; subst h1; subst h2
+    exact ⟨hs, fun m hm => by cases hm⟩
+  | f, s, s', c :: cs, ms, hs, h => by
+    unfold runAll at h
+    cases hr : run prog f s c with
+    | none => simp [hr] at h
+    | some r =>
+      obtain ⟨s1, m⟩ := r
+      simp only [hr] at h
+      cases hr2 : runAll prog f s1 cs with
+      | none => simp [hr2] at h
+      | some r2 =>
+        obtain ⟨s2, ms2⟩ := r2
+        simp only [hr2, Option.some.injEq, Prod.mk.injEq] at h
+        obtain ⟨h1, h2⟩ := h
+        subst h1; subst h2
+        obtain ⟨hs1, hm⟩ := run_newer prog N f s s1 c m hs hr
+        obtain ⟨hs2, hms⟩ := runAll_newer prog N f s1 s2 cs ms2 hs1 hr2
+        exact ⟨hs2, fun x hx => by
+          rcases List.mem_cons.mp hx with rfl | hx
+          · exact hm
+          · exact hms x hx⟩
+end
+
+/-- **After `generator.cache.reset()` the memo starts afresh**: every call made from then on — whatever the program, however
+    nested — returns a module made after the reset (the body ran again; nothing made before the reset is handed out), and from
+    then on equal calls agree again (`memo` holds in every state, the reset one included). -/
+theorem reset_starts_afresh (prog : Call → Body) (f : Nat) (s s' : St) (c : Call) (m : Nat)
+    (h : run prog f s.reset c = some (s', m)) : s.next ≤ m ∧ ∀ f', run prog (f' + 1) s' c = some (s', m) := by
+  have h0 : NewerThan s.next s.reset := ⟨fun c m hl => by simp [St.reset, lookup] at hl, Nat.le_refl _⟩
+  exact ⟨(run_newer prog s.next f s.reset s' c m h0 h).2, fun f' => memo prog f f' s.reset s' c m h⟩
+
 /-- A generator that hands on a module produced by another generator call does not rename it:
     the name table after the call is the one left by its nested calls. -/
 theorem forward_keeps_names (prog : Call → Body) (f : Nat) (s s2 s' : St) (c : Call)
